@@ -9,7 +9,8 @@ fixed program of *clauses* is executed on the real library; a case is (file, cla
               every record equals the encoder's input (reference name: none for refID -1; read name; flag; 0-based
               position; mapq; CIGAR ops; CIGAR lengths; sequence letters; qualities)
   interval    bnp.open(x.bam, buffer_type=BamIntervalBuffer).read() and bnp.alignments.alignment_to_interval(table):
-              chromosome, start = pos, stop = pos + sum(len of M D N = X), strand from flag 0x10
+              chromosome, start = pos, stop = pos + sum(len of M D N = X), strand from flag 0x10; afterwards the records that
+              were converted still decode to the same values and a second conversion of the same table gives the same
   chunked     bnp.open(x.bam).read_chunks(k) for EVERY k from the largest record to (bytes of all records)+2: the
               concatenation of the chunks' records equals the whole read's records
   write       with bnp.open(y.bam,'w') as f: f.write(selection of the lazily read table): y.bam is decoded by the
@@ -709,13 +710,16 @@ def clause_interval(cx, via):
     b = cx.b
     clause = {'op': 'interval', 'via': via}
     cx.begin(2 + len(IV_ALL))
+    src = None
     try:
         if via == 'BamIntervalBuffer':
             t = bnp.open(cx.path, buffer_type=BamIntervalBuffer).read()
         elif via == 'alignment_to_interval':
-            t = bnp.alignments.alignment_to_interval(bnp.open(cx.path).read())
+            src = bnp.open(cx.path).read()
+            t = bnp.alignments.alignment_to_interval(src)
         else:
-            t = bnp.alignments.alignment_to_interval(bnp.open(cx.path, lazy=False).read())
+            src = bnp.open(cx.path, lazy=False).read()
+            t = bnp.alignments.alignment_to_interval(src)
         n = len(t)
     except Exception as e:
         cx.fail('interval:raises', clause, dict(cx.facts, via=via), expected='%d intervals' % b.n,
@@ -752,6 +756,32 @@ def clause_interval(cx, via):
             cx.fail('interval:' + f, clause, dict(wrong_facts(b, wrong), via=via, comp=cx.facts['comp']),
                     expected={'rows': wrong[:4], 'values': [exp[i] for i in wrong[:4]]}, observed=[got[i] for i in wrong[:4]])
             bad.append(f)
+    if src is not None and not bad:
+        # the records handed to the conversion still decode to the same values afterwards (compared with a fresh read in
+        # the same mode), and converting the same table a second time gives the same intervals
+        try:
+            fresh = strip_tb(obs_fields(bnp.open(cx.path, lazy=(via == 'alignment_to_interval')).read(), FIELDS))
+            after = strip_tb(obs_fields(src, FIELDS))
+            again = strip_tb(obs_fields(bnp.alignments.alignment_to_interval(src), IV_ALL))
+            cx.res.transitions += 3
+        except observe.ObserverError:
+            raise
+        except Exception as e:
+            cx.fail('interval:records-after-conversion', clause, dict(cx.facts, via=via), expected='readable records',
+                    observed=exc_name(e) + ': ' + str(e)[:200], tb=tb_string(e))
+            bad.append('records-after-conversion')
+        else:
+            diff = [f for f in FIELDS if after[f] != fresh[f]]
+            if diff:
+                cx.fail('interval:records-after-conversion', clause, dict(cx.facts, via=via, fields='+'.join(diff)),
+                        expected={f: _trim(fresh[f][1]) for f in diff[:3]}, observed={f: _trim(after[f][1]) for f in diff[:3]})
+                bad.append('records-after-conversion')
+            first = strip_tb(o)
+            diff2 = [f for f in IV_JUDGED if again[f] != first[f]]
+            if diff2:
+                cx.fail('interval:second-conversion-differs', clause, dict(cx.facts, via=via, fields='+'.join(diff2)),
+                        expected={f: _trim(first[f][1]) for f in diff2[:3]}, observed={f: _trim(again[f][1]) for f in diff2[:3]})
+                bad.append('second-conversion')
     strands = ''.join(sorted({r['strand'] for r in b.exp_iv}))
     cx.res.outcome('interval:%s:%s:strands%s' % (via, 'ok' if not bad else 'wrong-' + '+'.join(bad), strands))
 
